@@ -73,8 +73,16 @@ fn line_changes(patched_file: &PatchedFile) -> Vec<LineChange> {
     line_changes
 }
 
+/// The combined length (in bytes) of two lines up to which their difference is computed by character.
+const MAX_LINE_DIFF_LEN: usize = 4096;
+
 /// Returns sorted, non-overlapping byte ranges in `new` that represent changes from `old`.
 fn line_diff(old: &str, new: &str) -> Vec<Range<usize>> {
+    // The character diff takes quadratic time: very long lines (minified code, generated data)
+    // are reported as modified from their first to their last character instead.
+    if old.len() + new.len() > MAX_LINE_DIFF_LEN {
+        return vec![0..new.len().max(1)];
+    }
     let mut result = Vec::new();
     // The diff ops address characters, while the ranges (like all columns) are in bytes.
     let mut byte_offsets: Vec<usize> = new.char_indices().map(|(offset, _)| offset).collect();
